@@ -63,6 +63,7 @@ typedef struct {
   double impulse_block_bias;/* NaN-free: 0 => untouched, else set */
   int have_rm2; double rm2_reservoir_bits_secs; double rm2_bias; double rm2_damping; /* RATEMANAGE2 override */
   int refused_wrote;        /* k>0: before the k-th accepted vorbis_analysis_wrote, report far more samples than were requested (must be refused with OV_EINVAL and change nothing) */
+  int rm2_disable;          /* ENC_MANAGED only: after vorbis_encode_setup_managed, switch management off again through OV_ECTL_RATEMANAGE2_SET(NULL): the stream must then be plain VBR */
   int rm2_avg_off; long rm2_max_kbps;   /* with have_rm2: switch average tracking off / set the hard maximum through the control interface (0: untouched) */
   int sig; uint64_t sigseed; long nsamples;
   int chunk; int lazy;
